@@ -114,7 +114,16 @@ def _replay_step(v):
     # the two chars sit inside a string literal in front of an offending `&`; the (line, col) state
     # of the counterexample is replaced by the state the scanner really has at that point
     text = 'x := "' + c0 + c1 + '"; &'
-    return text, _expect_unexpected(text, len(text) - 1)
+    # second script: a word and a number cut out of the source with Scanner::range right after the two chars
+    text2 = 'x := "' + c0 + c1 + '"; zz9 := 1_2; print(zz9)\n'
+
+    def judge2(rc, out, err):
+        if rc not in (0, 103):
+            return f"interpreter crashed (exit {rc}) while scanning after multi-byte text"
+        if rc != 0 or out != "12\n":
+            return "a word / number after the two characters was not scanned as written (expected stdout '12')"
+        return None
+    return [(text, _expect_unexpected(text, len(text) - 1)), (text2, judge2)]
 
 
 def _replay_range(v):
@@ -133,7 +142,15 @@ def _replay_range(v):
         if rc == 0 and out != s + "\n":
             return "string literal text was not printed back unchanged"
         return None
-    return text, judge
+    text2 = 'x := "' + s + '"; zz9 := 1_2; print(zz9)\n'
+
+    def judge2(rc, out, err):
+        if rc not in (0, 103):
+            return f"interpreter crashed (exit {rc}) while scanning after multi-byte text"
+        if rc != 0 or out != "12\n":
+            return "a word / number after the three characters was not scanned as written (expected stdout '12')"
+        return None
+    return [(text, judge), (text2, judge2)]
 
 
 C18_UNITS = [
